@@ -57,7 +57,7 @@ pub fn components_json() -> J {
         )
 }
 
-pub const PROPERTY_IDS: &[&str] = &["C01", "C03", "C04", "C09", "C10"];
+pub const PROPERTY_IDS: &[&str] = &["C01", "C03", "C04", "C09", "C10", "C20"];
 
 macro_rules! dispatch {
     ($id:expr, $f:ident, $($arg:expr),*) => {
@@ -67,6 +67,7 @@ macro_rules! dispatch {
             "C04" => $f(&props::c04::C04, $($arg),*),
             "C09" => $f(&props::c09::C09, $($arg),*),
             "C10" => $f(&props::c10::C10, $($arg),*),
+            "C20" => $f(&props::c20::C20, $($arg),*),
             other => {
                 eprintln!("unknown or unclaimed property '{}'; claimed: {:?}", other, PROPERTY_IDS);
                 EXIT_HARNESS
